@@ -8,9 +8,9 @@ pub open spec fn zeros(n: nat) -> Seq<i64> { Seq::new(n, |i: int| 0i64) }
 
 // ---- D4: opaque stand-ins for types of external crates that only occur as payloads of error enums
 pub mod ext {
-    pub mod ed25519_dalek { pub mod ed25519 { pub struct Error; } }
-    pub mod secp256k1 { pub struct Error; }
-    pub mod asm_errors { pub struct FromBytesError; }
+    pub mod ed25519_dalek { pub mod ed25519 { #[derive(Debug)] pub struct Error; } }
+    pub mod secp256k1 { #[derive(Debug)] pub struct Error; }
+    pub mod asm_errors { #[derive(Debug)] pub struct FromBytesError; }
 }
 
 // ---- Stack ops (asm.yml `Stack` group).  None = the op fails.  s is the stack before the op.
@@ -201,3 +201,18 @@ pub open spec fn sp_key_args(s: Seq<i64>) -> Option<(Seq<i64>, int, Seq<i64>)> {
 pub open spec fn sp_read_args(s: Seq<i64>) -> Option<(Seq<i64>, int, int, Seq<i64>)> {
     if s.len() < 1 || s.last() < 0 { None } else {
         match sp_key_args(s.drop_last()) { None => None, Some((key, n, rest)) => Some((key, n, s.last() as int, rest)) } } }
+
+// ---- Access ops (C12): data = predicate data of the solution being checked (slots of words)
+pub open spec fn sp_pred_data_len(s: Seq<i64>, data: Seq<Seq<i64>>) -> Option<Seq<i64>> {      // [slot_ix] -> [len]
+    if s.len() < 1 { None } else { let slot = s.last() as int; let t = s.drop_last();
+        if 0 <= slot < data.len() { Some(t.push(data[slot].len() as i64)) } else { None } } }
+pub open spec fn sp_pred_data_slots(s: Seq<i64>, data: Seq<Seq<i64>>) -> Option<Seq<i64>> {    // [] -> [num_slots]
+    if s.len() < 4096 { Some(s.push(data.len() as i64)) } else { None } }
+pub open spec fn sp_pred_data(s: Seq<i64>, data: Seq<Seq<i64>>) -> Option<Seq<i64>> {          // [slot_ix, value_ix, len] -> [words..]
+    let n = s.len() as int;
+    if n < 3 { None } else { let slot = s[n - 3] as int; let ix = s[n - 2] as int; let len = s[n - 1] as int; let t = s.take(n - 3);
+        if 0 <= slot < data.len() && 0 <= ix && 0 <= len && ix + len <= data[slot].len() && t.len() + len <= 4096
+            { Some(t + data[slot].subrange(ix, ix + len)) } else { None } } }
+
+// ---- Gas (C07)
+pub open spec fn sum_u64(s: Seq<u64>) -> int decreases s.len() { if s.len() == 0 { 0 } else { sum_u64(s.drop_last()) + s.last() } }
